@@ -174,8 +174,10 @@ claim("C07", "proof",
       "same SSA CFG (every claim must be >= the fixpoint; CS0013 never more often than right-hand sides the fixpoint accepts), and (L1b) the "
       "claim read as a statement about polynomials, tested directly: with every signal and port a free indeterminate and the parameters fixed, "
       "the (d+1)-th finite difference of a node claimed to have degree <= d vanishes along random lines. The theorems speak about one execution "
-      "at a time (a phi has the degree of one argument); the reading across executions fails in the code for values that depend on a signal "
-      "through control flow (known finding F-C07-control-dependence, found by an audit sub-agent, detected by L1b). The algebra is the "
+      "at a time (a phi has the degree of one argument); the reading across executions failed in the code for values that depend on a signal "
+      "through control flow (F-C07-control-dependence, found by an audit sub-agent, detected by L1b, repaired in e6fbe4d: a phi expression has a "
+      "degree only when the if statements between the immediate dominator of its block and the block have constant conditions; mirrored in the model: "
+      "Block.conds, C07_conditional_join, C07_join_flag, C07_control_dependence_repaired). The algebra is the "
       "compiler's table (quadratic +/- quadratic = non-quadratic; defect F-C07-sum-of-products repaired in cf338f0).",
       "Lean kernel + standard axioms; the harness that executes the real functions; the algebra-to-MvPolynomial link is not formalised "
       "(the finite-difference oracle stands in for it as a search tool).",
